@@ -30,7 +30,7 @@ ASSUMPTIONS = ["single-byte identifier octets (tag numbers below 31) wherever th
                "signature primitives (RSA, ECDSA) are exercised through relic's own Verify, not modelled"]
 TRUSTED = ["model Relic.Model.Der is hand-written; tied to encoding/asn1 + lib/pkcs7 by differential execution on every run",
            "harness-owned fake TSA and hand-assembled foreign SignedData values stand in for third-party producers"]
-UNPROVED = ["resynth_nodes_need_der_full"]
+UNPROVED = []
 IMPL_PARALLEL = 16
 
 _oracle = {"v": ""}
